@@ -110,8 +110,7 @@ type Collector struct {
 	Known     *Findings
 	ReplayDir string
 	Minimise  func(v Violation) Violation // optional
-	memo      map[string]string           // un-minimised key -> signature
-	memoV     map[string]Violation
+	memoV     map[string]Violation // un-minimised key -> minimised violation
 	KnownSeen map[string]int // signature -> count
 	KnownWhat map[string]*Finding
 	New       map[string]Violation // signature -> first violation
@@ -121,39 +120,49 @@ type Collector struct {
 
 // NewCollector returns a collector.
 func NewCollector(known *Findings, replayDir string) *Collector {
-	return &Collector{Known: known, ReplayDir: replayDir, memo: map[string]string{}, memoV: map[string]Violation{},
+	return &Collector{Known: known, ReplayDir: replayDir, memoV: map[string]Violation{},
 		KnownSeen: map[string]int{}, KnownWhat: map[string]*Finding{}, New: map[string]Violation{}, NewCount: map[string]int{}}
 }
 
-// SigOf computes the signature of a (minimised) violation.
-func SigOf(v Violation) string {
-	return fmt.Sprintf("%s|%s|%s|%s|%s", v.Prop, v.Kind, v.What, CfgClass(v.Cfg), Shape(v.Ops))
+// SigsOf computes the signatures of a (minimised) violation, one per atom:
+// property|kind|call-site:symptom|config class|tags.
+func SigsOf(v Violation) []string {
+	var out []string
+	for _, a := range v.Atoms {
+		out = append(out, fmt.Sprintf("%s|%s|%s|%s|%s", v.Prop, v.Kind, a, CfgClass(v.Cfg), strings.Join(v.Tags, ",")))
+	}
+	return out
+}
+
+func memoKey(v Violation) string {
+	return fmt.Sprintf("%s|%s|%s|%s|%s", v.Prop, v.Kind, strings.Join(v.Atoms, "+"), CfgClass(v.Cfg), Shape(v.Ops))
 }
 
 // Add classifies one violation.
 func (c *Collector) Add(v Violation) {
 	c.Total++
-	key := SigOf(v)
-	sig, ok := c.memo[key]
+	key := memoKey(v)
+	mv, ok := c.memoV[key]
 	if !ok {
-		mv := v
+		mv = v
 		if c.Minimise != nil {
 			mv = c.Minimise(v)
 		}
-		sig = SigOf(mv)
-		mv.Sig = sig
-		c.memo[key] = sig
-		c.memoV[sig] = mv
+		c.memoV[key] = mv
 	}
-	if k := c.Known.Match(v.Prop, sig); k != nil {
-		c.KnownSeen[sig]++
-		c.KnownWhat[sig] = k
-		return
+	for _, sig := range SigsOf(mv) {
+		if k := c.Known.Match(v.Prop, sig); k != nil {
+			c.KnownSeen[sig]++
+			c.KnownWhat[sig] = k
+			continue
+		}
+		if _, seen := c.New[sig]; !seen {
+			w := mv
+			w.Sig = sig
+			c.New[sig] = w
+		}
+		c.NewCount[sig]++
 	}
-	if _, seen := c.New[sig]; !seen {
-		c.New[sig] = c.memoV[sig]
-	}
-	c.NewCount[sig]++
 }
 
 // Report prints KNOWN-FINDING / VIOLATION lines, writes replay files and returns the number of
